@@ -553,7 +553,48 @@ def check_C05(ctx):
         "The points in between are known finding KF-RETRY-DUPLICATES (reproducer re-run on every check)"]
 
 
-CHECKS = {"C05": check_C05, "C16": check_C16, "C07": check_C07, "C09": check_C09, "C14": check_C14, "C18": check_C18, "C01": check_C01, "C02": check_C02, "C03": check_C03, "C04": check_C04, "C06": check_C06, "C08": check_C08,
+def check_C20(ctx):
+    import subprocess, shutil
+    from core import BEH_RE, tla_unescape, run_tlc, STATS_RE, SPEC, _tlc_env
+    build_harness(ctx)
+    quick = ctx.tier == "quick"
+    # 1. the range cache: exhaustive check of the specification, then TLC-generated call sequences on the real
+    #    mongo.ChangeStore, every call validated against the specification (fetcher calls and results)
+    ok, out, rec = model_check(ctx, "ChangeStore", "cstore_mc.cfg", overrides=None if quick else {"N": "6"})
+    viols = []
+    if not ok:
+        raise Infra("ChangeStore.tla itself violates its invariants:\n" + out[-2000:])
+    behs = generate(ctx, "cstore_gen.cfg", module="ChangeStore", simulate="num=%d" % (600 if quick else 20000), workers=1, timeout=900)
+    d = ctx.sub("cstore")
+    inp = os.path.join(d, "beh.ndjson")
+    with open(inp, "w") as f:
+        for b in behs:
+            f.write(json.dumps(b) + "\n")
+    tr = os.path.join(d, "trace.ndjson")
+    p = subprocess.run([ctx.yvh, "cstore", "-in", inp, "-out", tr], capture_output=True, text=True)
+    if p.returncode != 0:
+        raise Infra("cstore driver failed: " + p.stderr[-2000:])
+    for v in validate(ctx, [tr], module="ChangeStoreTrace", cfg="cstore_trace.cfg"):
+        run = v.get("run")
+        viols.append({"property": "C20", "tag": v["tag"], "family": "changestore", "behaviour": behs[run - 1] if run and run <= len(behs) else None,
+                      "line": v["line"], "seed": ctx.seed, "errors": []})
+    ctx.count("traces_validated", len(behs))
+    ctx.samples.append({"family": "changestore", "steps": behs[0] if behs else []})
+    # 2. the snapshot cache: the server's rebuilt document with cache hits / misses / evictions interleaved with pushes
+    fams = [dict(name="cache-mix", alphabet="OpsMix", clients="Seq3", threshold=2, interval=2, late='{"c3"}',
+                 feat='{"idle", "build", "evict", "lateattach"}', weight=40, maxedits=3),
+            dict(name="cache-nest", alphabet="OpsNest", clients="Seq3", threshold=1, interval=3, late='{"c3"}',
+                 feat='{"idle", "build", "evict", "lateattach"}', weight=6, maxedits=3, **OBJ)]
+    viols += sim_families(ctx, fams, {"BuildEquiv", "BuildNeverFails"}, 120 if quick else 1500)
+    if ctx.counters.get("builds", 0) == 0:
+        raise Infra("vacuous: no rebuild observed")
+    fresh, known = split_known(ctx, viols)
+    return "model_checking", fresh, known, mc_cov(ctx), [
+        "the MongoDB client that composes the caches cannot run here: the composition rules of mongo/client.go are modelled in ChangeStore.tla and "
+        "replayed against the real mongo.ChangeStore; pkg/cache LRU (with expiry) is not covered"]
+
+
+CHECKS = {"C20": check_C20, "C05": check_C05, "C16": check_C16, "C07": check_C07, "C09": check_C09, "C14": check_C14, "C18": check_C18, "C01": check_C01, "C02": check_C02, "C03": check_C03, "C04": check_C04, "C06": check_C06, "C08": check_C08,
           "C10": check_C10, "C11": check_C11, "C12": check_C12, "C15": check_C15}
 
 
